@@ -87,6 +87,7 @@ func optionSchedules(rng *rand.Rand, ps int) []Opts {
 		o.InitialMmapSize = []int{0, 0, 1 << 16, 1 << 22, 1 << 26}[rng.Intn(5)]
 		o.PreLoadFreelist = rng.Intn(2) == 0
 		o.StrictMode = rng.Intn(4) == 0
+		o.NoStatistics = rng.Intn(4) == 0
 		o.Mlock = rng.Intn(5) == 0 && mlockWorks()
 		o.AllocSize = []int{0, 32768, 1 << 20}[rng.Intn(3)]
 		if rng.Intn(4) == 0 {
